@@ -265,9 +265,9 @@ impl<'a> World<'a> {
 
     pub fn data_base(&self, o: &AddOpts) -> PathBuf {
         if o.same_dir {
-            self.root.join("shared")
+            self.root.join("Shared")
         } else {
-            self.root.join("data")
+            self.root.join("Data")
         }
     }
 
@@ -277,9 +277,9 @@ impl<'a> World<'a> {
             return nm_config::get_user_antnode_data_dir().expect("user data dir");
         }
         if o.same_dir {
-            self.root.join("shared")
+            self.root.join("Shared")
         } else {
-            self.root.join("logs")
+            self.root.join("Node Logs")
         }
     }
 
